@@ -39,7 +39,7 @@ func init() {
 	})
 }
 
-var restrict = wprog.Restrict{MaxOps: 7, MaxBody: 2500, SmallValues: true, NoWriterGet: true}
+var restrict = wprog.Restrict{MaxOps: 7, MaxBody: 2500, SmallValues: true}
 
 func Run(e *core.Env) {
 	side := e.T.Weighted("side", 3, 2)
